@@ -68,7 +68,7 @@ type env struct {
 	// and whether that URI was validated by an *earlier* request (callback flows).
 	redirect          string
 	validatedEarlier  bool
-	redirectForbidden bool // the URI is not registered: no redirect to it is ever acceptable
+	redirectForbidden bool   // the URI is not registered: no redirect to it is ever acceptable
 	subjectToken      string // revocation flows: the token the request under test is about
 	lit               literal
 }
@@ -495,9 +495,10 @@ func catalogue() []*flowDef {
 	}})
 
 	// --- token exchange: three requested types (+ none), three subject kinds, an actor.
-	// The subject is a JWT access token in the main flows because an *opaque* access-token subject panics without any
-	// fault (defect D4 of DESIGN.md section 7, judged under C09/C15); the opaque-subject flow is kept as Optional so
-	// that it joins the enumeration as soon as D4 is repaired.
+	// The subject is a JWT access token in the main flows because an *opaque* access-token subject used to panic without
+	// any fault (defect D4 of DESIGN.md section 7, judged under C09/C15, repaired in /repo by 6d1a5f6); the
+	// opaque-subject flow stays Optional: it is enumerated whenever its fault-free run works and merely recorded
+	// (histogram blocked_optional_flow) when it does not.
 	teFlow := func(name string, forceJWT, optional bool, subject, requested string, actor bool) {
 		okf := hasTokens("access_token", "issued_token_type")
 		if requested == string(oidc.RefreshTokenType) {
@@ -576,7 +577,9 @@ func catalogue() []*flowDef {
 	pollFlow("device_poll_approved_public", "devpub", stdScope, "approved")
 
 	// --- userinfo: opaque and JWT access token, header and form
-	okUserinfo := func(e *env, r *opdrv.Resp) bool { return r.Status == 200 && r.Str("sub") == e.user && r.Str("email") != "" }
+	okUserinfo := func(e *env, r *opdrv.Resp) bool {
+		return r.Status == 200 && r.Str("sub") == e.user && r.Str("email") != ""
+	}
 	for _, jwt := range []bool{false, true} {
 		for _, how := range []string{"bearer", "form"} {
 			jwt, how := jwt, how
